@@ -94,7 +94,7 @@ def stats_laws(st, cfg, complete, delivered):
         return "negative counter %r" % (st,)
     if inc + noch > flt or inc + ent > flt:
         return "filter=%d < inconsistency=%d + max(no_change=%d, entailment=%d)" % (flt, inc, noch, ent)
-    if shc + shn != sh:
+    if complete and shc + shn != sh:  # (a run cut by the step budget may have stopped in the middle of a probe)
         return "shaving attempts %d != successes %d + failures %d" % (sh, shc, shn)
     if sol != delivered and complete:
         return "solutions counted %d != delivered %d" % (sol, delivered)
